@@ -11,9 +11,15 @@
 //! applied to that value, `validator-panic`, plus
 //!  (v) `cache-proofs-differ`: on one recursor, with an honest network, a repeated resolve of the same
 //!      query (answered from the caches of the recursor) carries exactly the records and proofs of the
-//!      first one; and every step of a history (tampered resolve, then honest resolve of the same
-//!      query on the same recursor) is judged by (i)-(iii) again: what a tampered resolve left in the
-//!      caches must not come back as Secure / silently Insecure.
+//!      first one (DO=0 after DO=1: of the records that are not DNSSEC records); and every step of a
+//!      history (tampered resolve, then honest resolve of the same query on the same recursor) is
+//!      judged by (i)-(iii) again: what a tampered resolve that raised no alarm left in the caches must
+//!      not come back as Secure / silently Insecure (signature `..|via-history|honest-step-after-
+//!      rejected-tampering`). An alarm AFTER a step that already raised one is the acceptance reported
+//!      at that step kept by the caches: counted (`rec/info_alarm_after_accepted_tampering_not_reported`),
+//!      not reported. A history alarm is first flattened (all its faults in ONE resolve on a fresh
+//!      recursor): if that shows the alarm too, the caches play no part and it is reported as a
+//!      single-step case.
 //!  (vi) `proof-records-missing` (DO=1 only): a Secure RRset in answer / authority comes without any
 //!      RRSIG covering it: the link that establishes "Secure" is not handed to the security-aware client.
 //!  (vii) `nsec3-hard-limit-not-applied`: some hierarchies whose NSEC3 zones use 5 iterations are
@@ -108,6 +114,8 @@ pub struct RResult {
     pub cap_hit: bool,
     /// which variant of `Result<Message, RecursorError>` came back
     pub variant: String,
+    /// (responses above the EDNS payload size, TCP connects, datagrams to addresses nobody serves, undecodable queries) so far on this network
+    pub net_stats: (u64, u64, u64, u64),
 }
 
 /// per-resolve cap on datagrams the simulated network answers (a runaway loop stays finite)
@@ -220,7 +228,11 @@ pub fn run_rsteps(b: &Bench, attacker: &Arc<Attacker>, steps: &[RStep], opts: &R
                     Ok(r) => observe(r),
                     Err(_) => (err_obs(OutKind::Err("virtual timeout (600 s)".into())), "VirtualTimeout".into()),
                 };
-                out.push(RResult { obs, log, cap_hit, variant });
+                let net_stats = {
+                    let st = net.st.lock().unwrap();
+                    (st.oversize, st.tcp_connects, st.unrouted, st.undecodable_queries)
+                };
+                out.push(RResult { obs, log, cap_hit, variant, net_stats });
             }
         })
     });
@@ -230,9 +242,9 @@ pub fn run_rsteps(b: &Bench, attacker: &Arc<Attacker>, steps: &[RStep], opts: &R
     if let Err(p) = caught {
         // the step that was running when the panic happened
         let (log, cap_hit) = net.take_log();
-        out.push(RResult { obs: err_obs(OutKind::Panic(format!("{} @ {}", p.message.chars().take(80).collect::<String>(), crate::crate_site(&p.site())))), log, cap_hit, variant: "Panic".into() });
+        out.push(RResult { obs: err_obs(OutKind::Panic(format!("{} @ {}", p.message.chars().take(80).collect::<String>(), crate::crate_site(&p.site())))), log, cap_hit, variant: "Panic".into(), net_stats: (0, 0, 0, 0) });
         while out.len() < steps.len() {
-            out.push(RResult { obs: err_obs(OutKind::Err("not run: an earlier step panicked".into())), log: vec![], cap_hit: false, variant: "NotRun".into() });
+            out.push(RResult { obs: err_obs(OutKind::Err("not run: an earlier step panicked".into())), log: vec![], cap_hit: false, variant: "NotRun".into(), net_stats: (0, 0, 0, 0) });
         }
     }
     Ok(out)
@@ -691,6 +703,13 @@ impl RJudge<'_> {
             if res.cap_hit {
                 self.rep.count("rec/info_datagram_cap_hit_not_judged");
             }
+            if si + 1 == steps.len() {
+                let (oversize, tcp, unrouted, undec) = res.net_stats;
+                self.rep.add("rec/info_responses_above_edns_payload", oversize);
+                self.rep.add("rec/info_tcp_connects_refused", tcp);
+                self.rep.add("rec/info_datagrams_to_unserved_addresses", unrouted);
+                self.rep.add("rec/info_undecodable_queries", undec);
+            }
             if res.log.len() >= 3 {
                 let h = fnv64(format!("rec|{}|{}", self.hier_hash, serde_json::to_string(&steps[..=si].iter().map(|s| s.to_json()).collect::<Vec<_>>()).unwrap()).as_bytes());
                 self.rep.nontrivial(h);
@@ -797,6 +816,9 @@ pub fn workload(rep: &mut Reporter, attacker: &Arc<Attacker>, b: &Bench, hier_js
         }
     }
     j.rep.count("rec/hierarchies");
+    if AuthNet::new(b.world.clone(), attacker.clone(), 1).shared_addresses() > 0 {
+        j.rep.count("rec/hierarchies_with_a_server_address_shared_by_zones");
+    }
 
     // ---- honest pass: resolve, resolve again (caches), resolve for a DO=0 client --------------
     let mut recorded: Vec<Recorded> = Vec::new();
